@@ -84,7 +84,7 @@ fn doc_with_font(h: u8, data: &[u8], second: Option<&[u8]>, w: i32, ice: bool) -
         name: "custom".into(),
         height: h,
         builtin: None,
-        data: data.to_vec(),
+        data: data.to_vec(), sauce_name: None,
     });
     d.layers[0].cells.push(doc::CellD { x: 0, y: 0, ch: 65, fg: 7, bg: 0, attr: 0, fp: 0 });
     if let Some(s) = second {
@@ -93,7 +93,7 @@ fn doc_with_font(h: u8, data: &[u8], second: Option<&[u8]>, w: i32, ice: bool) -
             name: "custom2".into(),
             height: h,
             builtin: None,
-            data: s.to_vec(),
+            data: s.to_vec(), sauce_name: None,
         });
         d.layers[0].cells.push(doc::CellD { x: 1, y: 0, ch: 66, fg: 7, bg: 0, attr: 0, fp: 1 });
     }
